@@ -84,7 +84,8 @@ SeqHas(sq, x) == \E j \in 1..Len(sq) : sq[j] = x
 Store0 == [x |-> -1, y |-> -1, cl |-> <<>>]
 X0 == [pos |-> 0, env |-> <<>>, store |-> Store0, g |-> 0, log |-> <<>>, errs |-> <<>>,
        fmax |-> 0, fset |-> {}, fany |-> FALSE, hs |-> <<>>, seeds |-> <<>>, done |-> {},
-       ab |-> "none", abinfo |-> <<>>, cnt |-> 0, haz |-> {}, mseen |-> {}, active |-> {}, rseen |-> {}]
+       ab |-> "none", abinfo |-> <<>>, cnt |-> 0, haz |-> {}, mseen |-> {}, active |-> {}, rseen |-> {},
+       ch |-> <<>>]     \* the choice statistics (Statistics option): one entry <<rule, choice, alternative or 0>> per evaluated choice
 Res(ok, val, x) == [ok |-> ok, val |-> val, x |-> x]
 Ab(x) == x.ab # "none"
 \* restore what backtracking restores, keep what survives failure
@@ -128,7 +129,7 @@ InClass(C, n, r) ==
 (* taken as for ever when the stores keep changing)                        *)
 Stuck(x1, x, acc) == x1.pos = x.pos /\ ((x1.store = x.store /\ x1.g = x.g) \/ Len(acc) >= 64)
 
-RECURSIVE Ev(_,_,_,_,_), EvSeq(_,_,_,_,_,_,_,_), EvCh(_,_,_,_,_,_,_), EvRep(_,_,_,_,_,_,_),
+RECURSIVE Ev(_,_,_,_,_), EvSeq(_,_,_,_,_,_,_,_), EvCh(_,_,_,_,_,_,_,_), EvRep(_,_,_,_,_,_,_),
           EvLit(_,_,_,_,_,_,_), EvRule(_,_,_,_), EvLR(_,_,_,_), Grow(_,_,_,_,_,_), EvThrow(_,_,_,_,_,_)
 
 (* C = the case: [G, inp, opt, errblks, lower, uclass]; e = node id;      *)
@@ -154,7 +155,7 @@ Ev(C, e, x0, inv, rn) ==
          IF m THEN Res(TRUE, <<"b", SubSeq(C.inp, pos+1, pos+d[2])>>, Advance(C, x1, pos+d[2], rn))
          ELSE Res(FALSE, Nil, x1)
     [] n.k = "seq" -> EvSeq(C, n.kids, 1, x, inv, rn, <<>>, x)
-    [] n.k = "choice" -> EvCh(C, n.kids, 1, x, inv, rn, x)
+    [] n.k = "choice" -> EvCh(C, e, n.kids, 1, x, inv, rn, x)
     [] n.k = "star" -> EvRep(C, n.kids[1], x, inv, rn, <<>>, x.env)
     [] n.k = "plus" ->
          LET r == Ev(C, n.kids[1], [x EXCEPT !.env = <<>>], inv, rn) IN
@@ -257,12 +258,15 @@ EvSeq(C, kids, i, x, inv, rn, acc, x0) ==
        IF Ab(r.x) THEN r
        ELSE IF r.ok THEN EvSeq(C, kids, i+1, r.x, inv, rn, Append(acc, r.val), x0)
        ELSE Res(FALSE, Nil, Back(r.x, x0))
-EvCh(C, kids, i, x, inv, rn, x0) ==
-  IF i > Len(kids) THEN Res(FALSE, Nil, x)
+(* "ChoiceAltCnt ... count for each ordered choice expression which alternative is used how many times ... If an    *)
+(* ordered choice does not match, a special counter is incremented": x.ch logs <<current rule, choice, alternative>>   *)
+(* (0 = no match); like the other logs it survives backtracking.                                                      *)
+EvCh(C, e, kids, i, x, inv, rn, x0) ==
+  IF i > Len(kids) THEN Res(FALSE, Nil, [x EXCEPT !.ch = Append(@, <<rn, e, 0>>)])
   ELSE LET r == Ev(C, kids[i], [x EXCEPT !.env = <<>>], inv, rn) IN
        IF Ab(r.x) THEN r
-       ELSE IF r.ok THEN Res(TRUE, r.val, [r.x EXCEPT !.env = x0.env])
-       ELSE EvCh(C, kids, i+1, Back(r.x, x0), inv, rn, x0)
+       ELSE IF r.ok THEN Res(TRUE, r.val, [r.x EXCEPT !.env = x0.env, !.ch = Append(@, <<rn, e, i>>)])
+       ELSE EvCh(C, e, kids, i+1, Back(r.x, x0), inv, rn, x0)
 (* greedy repetition; an iteration that succeeds without consuming would   *)
 (* repeat for ever: the evaluation DIVERGES (third outcome, C16)           *)
 EvRep(C, kid, x, inv, rn, acc, env0) ==
@@ -383,5 +387,6 @@ RefOutcome(C) ==
       fmax |-> x.fmax,
       nexp |-> {IF w = <<33, 46>> THEN EOFW ELSE w : w \in x.fset},
       cnt |-> x.cnt,
+      ch |-> x.ch,
       haz |-> x.haz]
 =============================================================================
